@@ -1144,8 +1144,10 @@ func (e *Entry) Augment(addErrors bool) (processed, skipped int) {
 			unapplied = append(unapplied, a)
 			continue
 		}
-		if target.Dir == nil {
+		if target.Dir == nil || target.RPC != nil || target.Kind == AnyXMLEntry || target.Kind == AnyDataEntry {
 			// A leaf or leaf-list: there is no child map to merge into.
+			// An anyxml, anydata, rpc or action cannot be augmented
+			// either (RFC 7950, 7.17).
 			e.errorf("%s: augment %s: target cannot have child nodes", Source(a.Node), a.Name)
 			processed++
 			continue
